@@ -43,6 +43,23 @@ fn parse_retry_after(response: &reqwest::Response) -> Option<Duration> {
         .map(Duration::from_secs)
 }
 
+/// Verification access shims (compiled only by the Kani model checker).
+#[cfg(kani)]
+pub mod verif_access {
+    use super::{CdnClient, CdnEndpoint, ContentType};
+    use std::time::Duration;
+
+    /// Calls the private `CdnClient::build_url`.
+    pub fn build_url(endpoint: &CdnEndpoint, content_type: ContentType, key: &[u8]) -> String {
+        CdnClient::build_url(endpoint, content_type, key)
+    }
+
+    /// Calls the private `parse_retry_after`.
+    pub fn parse_retry_after(response: &reqwest::Response) -> Option<Duration> {
+        super::parse_retry_after(response)
+    }
+}
+
 /// CDN endpoint configuration injected from external source
 #[derive(Debug, Clone)]
 pub struct CdnEndpoint {
